@@ -19,7 +19,8 @@ pub struct Ctl {
     /// write-back view of the underlying file: set by every underlying write, cleared by a successful underlying flush
     pub dirty: AtomicBool,
     /// the injected error has kind `Interrupted` (which `read_exact` / `write_all` retry) instead of `Other`
-    pub interrupted: AtomicBool,
+    /// 0 = kind Other, 1 = Interrupted, 2 = UnexpectedEof, 3 = a read that returns Ok(0) (seeks: UnexpectedEof)
+    pub kind: AtomicU64,
 }
 
 impl Ctl {
@@ -33,7 +34,7 @@ impl Ctl {
             count_writes: AtomicBool::new(writes),
             small_buffer: AtomicBool::new(false),
             dirty: AtomicBool::new(false),
-            interrupted: AtomicBool::new(false),
+            kind: AtomicU64::new(0),
         })
     }
     fn hit(&self, is_read_side: bool) -> io::Result<()> {
@@ -49,10 +50,12 @@ impl Ctl {
                 let frames: Vec<&str> = bt.lines().filter(|l| l.contains("cfb::") && !l.contains("cfb_verif_harness")).map(|l| l.trim()).collect();
                 println!("FAULT-SITE call {}: {}", k, frames.join(" <- "));
             }
-            if self.interrupted.load(Ordering::SeqCst) {
-                return Err(io::Error::new(io::ErrorKind::Interrupted, "injected fault (interrupted)"));
-            }
-            return Err(io::Error::other("injected fault"));
+            return Err(match self.kind.load(Ordering::SeqCst) {
+                1 => io::Error::new(io::ErrorKind::Interrupted, "injected fault (interrupted)"),
+                2 => io::Error::new(io::ErrorKind::UnexpectedEof, "injected fault (unexpected eof)"),
+                3 => io::Error::new(io::ErrorKind::UnexpectedEof, "injected fault (zero-length read)"),
+                _ => io::Error::other("injected fault"),
+            });
         }
         Ok(())
     }
@@ -67,7 +70,12 @@ pub struct FaultyFile {
 
 impl Read for FaultyFile {
     fn read(&mut self, buf: &mut [u8]) -> io::Result<usize> {
-        self.ctl.hit(true)?;
+        if let Err(e) = self.ctl.hit(true) {
+            if self.ctl.kind.load(Ordering::SeqCst) == 3 {
+                return Ok(0); // the reader claims to be at its end
+            }
+            return Err(e);
+        }
         self.inner.read(buf)
     }
 }
@@ -334,13 +342,13 @@ pub fn read_campaign(seed: u64, pairs: u64, ops_path: &str, impl_path: &str) {
             println!("ORACLE fault-free run: {}", b);
         }
         let good = successes(&t0);
-        let interrupted = std::cell::Cell::new(false);
+        let interrupted = std::cell::Cell::new(0u64);
         let mut run = |a: u64, b: u64, traced: bool| {
             let ctl = Ctl::new(true, false);
             ctl.fail_a.store(a, Ordering::SeqCst);
             ctl.fail_b.store(b, Ordering::SeqCst);
-            ctl.interrupted.store(interrupted.get(), Ordering::SeqCst);
-            let kind = if interrupted.get() { " [kind Interrupted]" } else { "" };
+            ctl.kind.store(interrupted.get(), Ordering::SeqCst);
+            let kind = [" ", " [kind Interrupted]", " [kind UnexpectedEof]", " [read returns Ok(0)]"][interrupted.get() as usize].trim_end();
             let mut tr = Vec::new();
             let r = catch(|| read_workload(&image, &streams, ctl.clone(), if traced { Some(&mut tr) } else { None }));
             match r {
@@ -390,20 +398,24 @@ pub fn read_campaign(seed: u64, pairs: u64, ops_path: &str, impl_path: &str) {
         }
         // the same positions with an error of kind `Interrupted`, which `read_exact` retries by itself: the call
         // that was interrupted is repeated by the standard library, and the result must still be the fault-free one
-        interrupted.set(true);
-        for k in 0..n {
-            run(k, u64::MAX, false);
-            evaluations += 1;
-        }
-        for i in 0..(pairs / 4).min(n * n) {
-            let (a, b) = (rng.below(n), rng.below(n));
-            let _ = i;
-            if a < b {
-                run(a, b, false);
+        // … and with kind `UnexpectedEof`, and with a read that returns Ok(0) although data remains: either an error
+        // or the fault-free result, never other bytes
+        for fault_kind in [1u64, 2, 3] {
+            interrupted.set(fault_kind);
+            for k in 0..n {
+                run(k, u64::MAX, false);
                 evaluations += 1;
             }
+            for i in 0..(pairs / 4).min(n * n) {
+                let (a, b) = (rng.below(n), rng.below(n));
+                let _ = i;
+                if a < b {
+                    run(a, b, false);
+                    evaluations += 1;
+                }
+            }
         }
-        interrupted.set(false);
+        interrupted.set(0);
         let total_pairs = if n <= 150 { n * n } else { pairs };
         for i in 0..total_pairs {
             let (a, b) = if n <= 150 { (i / n, i % n) } else { (rng.below(n), rng.below(n)) };
